@@ -3,6 +3,7 @@
 //     a resumed checkpoint, serial and under the MPI shim: invocation log and returned checkpoint.
 //  B. the built-in callback: four modes x targets x integrand alphabet x 5 iterations against a
 //     long double reference of the documented stop rule.
+//  C. targets that are reached with equality in exact arithmetic, with and without a file name.
 #include "common.hpp"
 #include "engines.hpp"
 #include "mcmodel.hpp"
@@ -88,7 +89,7 @@ template <typename T> struct runner<T, 1>
 {
     using E = vf::script_engine;
     using C = hep::vegas_chkpt_with_rng<E, T>;
-    static C fresh() { return hep::make_vegas_chkpt<T, E>(3, T(1.5), E()); }
+    static C fresh() { return hep::make_vegas_chkpt<T, E>(3, T(1.25), E()); }
     template <typename CB> static C run(std::vector<sz> const& calls, C const& c, CB cb) { return hep::vegas(hep::make_integrand<T>(pf<T>(), 1), calls, c, cb); }
     template <typename CB> static C mpi(std::vector<sz> const& calls, C const& c, CB cb) { return hep::mpi_vegas(MPI_COMM_WORLD, hep::make_integrand<T>(pf<T>(), 1), calls, c, cb); }
 };
@@ -96,7 +97,7 @@ template <typename T> struct runner<T, 2>
 {
     using E = vf::script_engine;
     using C = hep::multi_channel_chkpt_with_rng<E, T>;
-    static C fresh() { return hep::make_multi_channel_chkpt<T, E>(T(0.01L), T(0.25), E()); }
+    static C fresh() { return hep::make_multi_channel_chkpt<T, E>(T(0.01L), T(0.625), E()); }
     static vf::pl_map<T> map() { vf::pl_map<T> m; m.split = {T(0.25), T(0.75)}; return m; }
     template <typename CB> static C run(std::vector<sz> const& calls, C const& c, CB cb) { return hep::multi_channel(hep::make_multi_channel_integrand<T>(mf<T>(), 1, map(), 1, 2), calls, c, cb); }
     template <typename CB> static C mpi(std::vector<sz> const& calls, C const& c, CB cb) { return hep::mpi_multi_channel(MPI_COMM_WORLD, hep::make_multi_channel_integrand<T>(mf<T>(), 1, map(), 1, 2), calls, c, cb); }
@@ -297,6 +298,47 @@ static void part_b(report& r)
     }
 }
 
+// ---- C. exact boundary ----------------------------------------------------------------------------------
+// Every iteration has 2 calls with the values 1 and 3: E = 2 and S^2 = 1 exactly, so the combination of k
+// iterations has the relative error sqrt(1/k)/2, which is exact in every type for k = 1, 4, 16 (all operands
+// are small dyadic numbers).  "Not larger than the target" then holds with equality: targets 1/2, 1/4 and 1/8
+// must end the run after exactly 1, 4 and 16 iterations - in every mode, with a file name and with the default
+// (empty) one.
+static sz g_alt = 0;
+template <typename T> struct alt_fn { T operator()(hep::mc_point<T> const&) const { return (g_alt++ % 2) ? T(3) : T(1); } };
+
+template <typename T>
+static void part_c(report& r)
+{
+    using C = hep::plain_chkpt_with_rng<vf::script_engine, T>;
+    std::string const tn = vf::type_name<T>();
+    std::vector<sz> const calls(20, 2);
+    hep::callback_mode const modes[] = {hep::callback_mode::silent, hep::callback_mode::silent_and_write_chkpt, hep::callback_mode::verbose, hep::callback_mode::verbose_and_write_chkpt};
+    struct tc { T target; sz expect; };
+    std::vector<tc> const tcs = {{T(0.5), 1}, {T(0.25), 4}, {T(0.125), 16}, {T(0.3L), 3}, {T(0.4L), 2}, {T(0.0625), 20}, {T(0), 20}};
+    for (auto const& t : tcs) for (int mi = 0; mi != 4; ++mi) for (int named = 0; named != 2; ++named)
+    {
+        std::string const id = tn + " C target=" + vf::dec(t.target) + " mode=" + std::to_string(mi) + (named ? " file" : " no-file-name");
+        if (!r.want(id)) continue;
+        r.eval();
+        g_alt = 0;
+        std::ostringstream sink;
+        std::streambuf* const old = std::cout.rdbuf(sink.rdbuf());
+        auto const ret = hep::plain(hep::make_integrand<T>(alt_fn<T>(), 1), calls, hep::make_plain_chkpt<T, vf::script_engine>(vf::script_engine()),
+            hep::callback<C>(modes[mi], named ? g_file : std::string(), t.target));
+        std::cout.rdbuf(old);
+        ::unlink(".tmp");   // a writing mode without a file name leaves its temporary file behind
+        sz const performed = ret.results().size();
+        if (performed != t.expect)
+            r.violate(performed < t.expect ? "stopped-before-target-reached" : "continued-after-target-reached", id, id + ": performed " + std::to_string(performed)
+                + " iterations; every iteration has E = 2, S^2 = 1 exactly, the combined relative error is exactly sqrt(1/k)/2 and the rule gives " + std::to_string(t.expect));
+        r.outcome("iterations performed", performed);
+        r.distinct(vf::hash_str(id));
+        r.state();
+        r.transition(performed);
+    }
+}
+
 template <typename T>
 static void for_type(report& r)
 {
@@ -304,6 +346,7 @@ static void for_type(report& r)
     if (!r.want_prefix(tn)) return;
     if (r.want_prefix(tn + " A")) { part_a<T, 0>(r); part_a<T, 1>(r); part_a<T, 2>(r); }
     if (r.want_prefix(tn + " B")) { part_b<T, 0>(r); part_b<T, 1>(r); part_b<T, 2>(r); }
+    if (r.want_prefix(tn + " C")) part_c<T>(r);
     vf::script_engine::salt() = 0;
 }
 
